@@ -155,4 +155,87 @@ theorem civil_roundtrip (z : Int) :
     daysFromCivil (civilFromDays z).1 (civilFromDays z).2.1 (civilFromDays z).2.2 = z :=
   ⟨civilFromDays_valid z, daysFromCivil_civilFromDays z⟩
 
+/-! ### integers, booleans, strings -/
+
+/-- every i16 / i32 / i64 (any range, in fact) prints and parses back -/
+theorem int_roundtrip (lo hi v : Int) (h : lo ≤ v ∧ v ≤ hi) :
+    parseIntRange lo hi (intDigits v) = .ok v := parseIntRange_intDigits lo hi v h
+
+example : parseIntRange i64Lo i64Hi (intDigits (-9223372036854775808)) = .ok (-9223372036854775808) :=
+  int_roundtrip _ _ _ (by decide)
+
+theorem bool_roundtrip (b : Bool) : parseBool (displayBool b) = .ok b := by cases b <;> rfl
+
+/-- `String` Display is the identity and `push_str` stores the text as is (non-empty text; the
+empty string is C20's `csv:empty-string`) -/
+theorem string_roundtrip (s : Bytes) : (fun t : Bytes => (Out.ok t : Out Bytes)) s = .ok s := rfl
+
+/-! ### blobs: FULL statement is false -/
+
+/-- FULL statement: every blob survives Display + FromStr. -/
+def BlobRoundtripFull : Prop := ∀ b : Bytes, parseBlobText (displayBlob b) = .ok b
+
+/-- proved part: blobs containing neither `\` (0x5C) nor `'` (0x27) -/
+theorem blob_roundtrip_partial (b : Bytes) (h : ∀ x ∈ b, x ≠ 92 ∧ x ≠ 39) :
+    parseBlobText (displayBlob b) = .ok b :=
+  parseBlob_displayBlob b _ (Nat.lt_succ_self _) h
+
+example : parseBlobText (displayBlob [0, 65, 255, 10, 126, 127]) = .ok [0, 65, 255, 10, 126, 127] :=
+  blob_roundtrip_partial _ (by decide)
+
+/-- witness: the one-byte blob `\` prints as `\\` and parses back as two bytes
+(known finding `roundtrip:blob:backslash-or-quote`, replayed on the implementation) -/
+theorem blob_roundtrip_unsound : ¬ BlobRoundtripFull := by
+  intro h
+  have := h [92]
+  revert this
+  decide
+
+example : parseBlobText (displayBlob [39]) = .ok [39, 39] := by decide
+
+/-! ### intervals and timestamps: FULL statements are false (sub-second parts) -/
+
+/-- FULL statement: every interval (i32 fields) survives Display + FromStr. -/
+def IntervalRoundtripFull : Prop :=
+  ∀ m d ms : Int, inI32 m = true → inI32 d = true → inI32 ms = true →
+    parseInterval (displayInterval m d ms) = .ok (m, d, ms)
+
+/-- witness: 1 ms prints as the empty string and parses back as the zero interval
+(known finding `roundtrip:interval:subsecond`) -/
+theorem interval_roundtrip_unsound : ¬ IntervalRoundtripFull := by
+  intro h
+  have := h 0 0 1 (by decide) (by decide) (by decide)
+  revert this
+  decide
+
+example : parseInterval (displayInterval 14 3 14706000) = .ok (14, 3, 14706000) := by decide
+example : parseInterval (displayInterval (-14) (-3) (-14706000)) = .ok (-14, -3, -14706000) := by decide
+example : parseInterval (displayInterval 0 0 1500) = .ok (0, 0, 1000) := by decide
+
+/-- FULL statement: every timestamp that can be printed parses back to itself. -/
+def TimestampRoundtripFull : Prop :=
+  ∀ us : Int, ∀ t, displayTimestamp us = .ok t → parseTimestamp t = some (.ok us)
+
+/-- witness: 1 µs after the epoch prints as `1940-01-02 00:00:00.001` (truncation toward zero
+of a negative millisecond count), which `from_str` rejects
+(known finding `roundtrip:timestamp:subsecond`) -/
+theorem timestamp_roundtrip_unsound : ¬ TimestampRoundtripFull := by
+  intro h
+  have := h 1 _ rfl
+  revert this
+  decide
+
+/-- even whole-second timestamps fail: years below -9999 are printed with 5+ unsigned digits
+(known finding `roundtrip:timestamp:bc-year-over-4-digits`) -/
+theorem timestamp_wholesec_roundtrip_unsound :
+    ¬ (∀ us : Int, us % 1000000 = 0 → ∀ t, displayTimestamp us = .ok t → parseTimestamp t = some (.ok us)) := by
+  intro h
+  have := h (-922097156719000000) (by decide) _ rfl
+  revert this
+  decide
+
+example : ∃ t, displayTimestamp 0 = .ok t ∧ parseTimestamp t = some (.ok 0) := ⟨_, rfl, by decide⟩
+-- a negative sub-millisecond part is dropped silently instead
+example : ∃ t, displayTimestamp (-1) = .ok t ∧ parseTimestamp t = some (.ok 0) := ⟨_, rfl, by decide⟩
+
 end RlModel
